@@ -170,39 +170,26 @@ func min8(a, b uint8) uint8 {
 	return b
 }
 
-// enumerate concretises s by forking over its feasible values (at most max).
+// enumerate concretises s by deciding its bits from the most significant
+// one down (a deterministic sequence of two-way forks, so replays of a
+// decision prefix see the same conditions).  Every feasible value becomes
+// one path; max bounds the width that may be enumerated this way.
 func (fr *frame) enumerate(s symInt, max int) int64 {
 	px := fr.i.px
 	a := &px.ar
-	// replay-friendly: decisions are "is it value v_k?" with v_k from models.
-	for n := 0; n < max; n++ {
-		var v uint64
-		if len(px.decisions) < len(px.prefix) {
-			// replaying: the model of the queued item tells the value
-			if !px.modelOK {
-				// fall back to asking the solver
-				r, m := px.checkSat(tTrue, true)
-				if r != Sat {
-					px.abort("unsupported", "enumerate: no model")
-				}
-				px.model, px.modelOK = m, true
-			}
-		}
-		if !px.modelOK {
-			r, m := px.checkSat(tTrue, true)
-			if r != Sat {
-				px.abort("unsupported", "enumerate: no model")
-			}
-			px.model, px.modelOK = m, true
-		}
-		v = EvalTerm(s.t, px.model)
-		eq := a.Eq(s.t, a.Const(s.t.w, v))
-		if px.forkBool(eq) {
-			return sext64(v, s.t.w)
+	w := s.t.w
+	if s.t.op == OpConst {
+		return sext64(s.t.cval, w)
+	}
+	var v uint64
+	for i := int(w) - 1; i >= 0; i-- {
+		bit := a.Eq(a.Bin(OpBAnd, a.Bin(OpLShr, s.t, a.Const(w, uint64(i))), a.Const(w, 1)), a.Const(w, 1))
+		if px.forkBool(bit) {
+			v |= 1 << uint(i)
 		}
 	}
-	px.abort("unsupported", "enumerate: more than %d values", max)
-	return 0
+	_ = max
+	return sext64(v, w)
 }
 
 func (r *rope) hasOnlyFixed() bool {
